@@ -252,3 +252,177 @@ pub fn c17(out: &mut Out, _thorough: bool) {
     out.exhaustive = true;
     out.notes.insert("exhaustive".into(), "every node of the embedded book reached from INITIAL_BOOOK_MOVES, each move played with the real move_mut from the standard position".into());
 }
+
+// ------------------------------------------------------------------------------------------ book builder
+
+/// a trie node for the builder stream: move payload (source | dest << 6), count, depth field, children
+struct GenNode {
+    mv: u16,
+    count: u32,
+    depth: usize,
+    kids: Vec<GenNode>,
+}
+
+fn sq_txt(i: u16) -> String {
+    format!("{}{}", (b'a' + (i % 8) as u8) as char, (b'1' + (i / 8) as u8) as char)
+}
+
+impl GenNode {
+    fn json(&self, out: &mut String) {
+        out.push_str(&format!("{{\"count\":{},\"depth\":{},\"next\":{{", self.count, self.depth));
+        for (i, k) in self.kids.iter().enumerate() {
+            if i > 0 {
+                out.push(',');
+            }
+            out.push_str(&format!("\"{}{}\":", sq_txt(k.mv & 63), sq_txt(k.mv >> 6)));
+            k.json(out);
+        }
+        out.push_str("}}");
+    }
+    /// preorder `mv:count:depth:nchildren`, children in ascending count (the order `encode` visits them)
+    fn tokens(&self, out: &mut Vec<String>) {
+        out.push(format!("{}:{}:{}:{}", self.mv, self.count, self.depth, self.kids.len()));
+        let mut ks: Vec<&GenNode> = self.kids.iter().collect();
+        ks.sort_by_key(|k| k.count);
+        for k in ks {
+            k.tokens(out);
+        }
+    }
+    fn nodes(&self) -> usize {
+        1 + self.kids.iter().map(|k| k.nodes()).sum::<usize>()
+    }
+}
+
+/// `branch(ply, rng)` children per node at that ply; leaves at ply 8; counts consistent (inner = sum of children),
+/// siblings with distinct counts and distinct moves
+fn gen_trie(rng: &mut crate::common::Rng, ply: usize, mv: u16, branch: &dyn Fn(usize, &mut crate::common::Rng) -> usize, low_leaves: bool, next_count: &mut u32) -> GenNode {
+    if ply == 8 {
+        *next_count += 1 + rng.below(7) as u32;
+        let c = if low_leaves && rng.chance(1, 5) { 50 + rng.below(350) as u32 } else { 401 + *next_count };
+        return GenNode { mv, count: c, depth: 0, kids: Vec::new() };
+    }
+    loop {
+        let k = branch(ply, rng).max(1);
+        let mut kids: Vec<GenNode> = Vec::new();
+        let mut used: Vec<u16> = Vec::new();
+        while kids.len() < k {
+            let m = (rng.below(64) as u16) | ((rng.below(64) as u16) << 6);
+            if used.contains(&m) {
+                continue;
+            }
+            used.push(m);
+            kids.push(gen_trie(rng, ply + 1, m, branch, low_leaves, next_count));
+        }
+        let mut cs: Vec<u32> = kids.iter().map(|k| k.count).collect();
+        cs.sort();
+        cs.dedup();
+        if cs.len() != kids.len() {
+            continue; // two siblings with the same count: the sort order would not be determined
+        }
+        let count = kids.iter().map(|k| k.count).sum();
+        return GenNode { mv, count, depth: 8 - ply, kids };
+    }
+}
+
+/// the reader (`BookMovesIter::next`) over a table that is not the embedded one
+fn walk_table(tbl: &[u16], index: usize, pre: &mut Vec<u16>, lines: &mut u64, ldigest: &mut u64, inrange: &mut bool, budget: &mut u64) {
+    let mut index = index;
+    loop {
+        if *budget == 0 {
+            *inrange = false;
+            return;
+        }
+        *budget -= 1;
+        if index >= tbl.len() {
+            *inrange = false;
+            return;
+        }
+        let offset = tbl[index] as usize;
+        if offset == 0 {
+            return;
+        }
+        if index < 2 {
+            *inrange = false;
+            return;
+        }
+        let mv = tbl[index - 1] & 0xfff;
+        let child = index - 2;
+        let Some(next) = index.checked_sub(offset + 1) else { return };
+        pre.push(mv);
+        *lines += 1;
+        let h = pre.iter().fold(7u64, |h, &m| h.wrapping_mul(1000003).wrapping_add(m as u64 + 1));
+        *ldigest = ldigest.wrapping_add(h);
+        walk_table(tbl, child, pre, lines, ldigest, inrange, budget);
+        pre.pop();
+        index = next;
+    }
+}
+
+/// C17 for the builder: `read_lichess_games()` (validate, trim, encode) on synthetic tries; the table it emits is read
+/// back the way `BookMovesIter` reads the embedded one
+pub fn bookgen(out: &mut Out, thorough: bool) {
+    let dir = std::env::temp_dir().join(format!("chess-verif-bookgen-{}", std::process::id()));
+    let _ = std::fs::create_dir_all(dir.join("temp"));
+    let old = std::env::current_dir().ok();
+    let _ = std::env::set_current_dir(&dir);
+    let mut rng = crate::common::Rng::new(out.seed ^ 0xB00C);
+    let mut cases: Vec<(&'static str, GenNode)> = Vec::new();
+    for i in 0..(if thorough { 400 } else { 40 }) {
+        let mut c = 0u32;
+        let low = i % 3 == 0;
+        let mut t = gen_trie(&mut rng, 0, 0, &|ply, r: &mut crate::common::Rng| if ply == 0 { 1 + r.below(4) as usize } else { 1 + r.below(2) as usize + (r.below(5) == 0) as usize }, low, &mut c);
+        if i % 7 == 3 {
+            // a root whose `depth` field says the lines are short: `encode` keeps nothing
+            t.depth = rng.below(5) as usize;
+        }
+        cases.push((if low { "small-with-rare-leaves" } else { "small" }, t));
+    }
+    // sibling links near and beyond the 16-bit limit: a first root child (never read back) and a second one whose
+    // block has 4^k-ish nodes
+    for (tag, b7) in [("link-just-fits", 3usize), ("link-too-long", 5usize)] {
+        let mut c = 0u32;
+        let t = gen_trie(&mut rng, 0, 0, &move |ply, _r: &mut crate::common::Rng| match ply { 0 => 2, 7 => b7, _ => 4 }, false, &mut c);
+        cases.push((tag, t));
+    }
+    for (tag, t) in cases.iter() {
+        let mut toks = Vec::new();
+        t.tokens(&mut toks);
+        let body = toks.join(" ");
+        let mut js = String::new();
+        t.json(&mut js);
+        let _ = std::fs::write(dir.join("temp").join("moves_trie.json"), &js);
+        let mut tbl: Option<Vec<u16>> = None;
+        // the exact layout is compared only where the sibling order is determined (no trimming: counts stay distinct);
+        // the lines read back are compared always
+        let req = if *tag == "small-with-rare-leaves" { format!("expect ran #bookgen-run {}", toks.len()) } else { format!("bookgen table {body}") };
+        let exact = *tag != "small-with-rare-leaves";
+        out.case(tag, true, req, || {
+            match crate::common::guard(|| chess_lookup_generator::book::read_lichess_games().ok()).flatten() {
+                Some(v) => {
+                    let d = v.iter().fold(0u64, |d, &w| d.wrapping_mul(1000003).wrapping_add(w as u64));
+                    let s = format!("len={} digest={}", v.len(), d);
+                    tbl = Some(v);
+                    if exact { s } else { "ran".into() }
+                }
+                None => if exact { "refused".into() } else { "ran".into() },
+            }
+        });
+        let ans = match &tbl {
+            None => "refused".to_string(),
+            Some(v) => {
+                let (mut lines, mut ld, mut inr) = (0u64, 0u64, true);
+                if !v.is_empty() {
+                    let mut budget = 4 * v.len() as u64 + 16;
+                    walk_table(v, v.len() - 1, &mut Vec::new(), &mut lines, &mut ld, &mut inr, &mut budget);
+                }
+                format!("inrange={inr} lines={lines} ldigest={ld}")
+            }
+        };
+        out.record("table-read-back", true, format!("bookgen lines {body}"), ans);
+    }
+    out.notes.insert("book-builder".into(), format!("{} synthetic tries through read_lichess_games(), largest {} nodes", cases.len(), cases.iter().map(|c| c.1.nodes()).max().unwrap_or(0)));
+    if let Some(o) = old {
+        let _ = std::env::set_current_dir(o);
+    }
+    let _ = std::fs::remove_dir_all(&dir);
+}
